@@ -6,8 +6,9 @@ differs from the recorded one causes an encoding error instead of a matrix; leve
 new data still produce their (all-zero) columns; and levels unseen at fit time never add, remove or
 rename columns and are announced with a data-mismatch warning."
 
-Property theorems only, about `Model.Reuse.replay` — the function the correspondence engine runs —
-for ALL recorded specs (lists of parts), follow-up frames and set-iteration orders. Helper lemmas
+Property theorems only, about `Model.Reuse.replay` and `Model.Reuse.replayDerived` (= `derive`, then
+`replay`) — the functions the correspondence engine runs — for ALL recorded specs (lists of parts),
+derivation histories (part / subset / round trip), follow-up frames and set-iteration orders. Helper lemmas
 are in `Proofs/C09.lean`. Every `theorem` here is audited with `#print axioms`. -/
 
 namespace FormulaicVerif.Props.C09
@@ -281,6 +282,84 @@ theorem unseen_levels_no_reshape (specs : List Spec) (fr : Frame) (order : List 
     exact ⟨hk, L, hL, some v, hv, Or.inr ⟨v, rfl, hvL⟩⟩
 
 
+/-! ## Histories — a spec DERIVED from a recorded one (a part used alone, `subset`, a pickle round
+trip) is reused with the state recorded at fit time -/
+
+/-- C09.5a  `derived_spec_keeps_record`: every spec a derivation history produces descends from one
+of the recorded specs and carries that spec's `encoder_state` (recorded kinds and levels),
+`transform_state` and settings verbatim; its terms and structure rows are terms and rows of that
+spec (so its column names are recorded column names). -/
+theorem derived_spec_keeps_record (specs specs' : List Spec) (steps : List Step)
+    (h : derive specs steps = .ok specs') :
+    ∀ s' ∈ specs', ∃ s ∈ specs,
+      s'.encoderState = s.encoderState ∧ s'.transformState = s.transformState ∧
+      s'.naAction = s.naAction ∧ s'.ensureFullRank = s.ensureFullRank ∧ s'.output = s.output ∧
+      (∀ t ∈ s'.terms, t ∈ s.terms) ∧ (∀ t ∈ s'.structure_, t ∈ s.structure_) ∧
+      (∀ e, pinnedOf s' e = pinnedOf s e) := by
+  intro s' hs'
+  obtain ⟨s, hs, hd⟩ := derive_derived steps specs specs' h s' hs'
+  exact ⟨s, hs, hd.enc, hd.ts, hd.na, hd.efr, hd.out, hd.terms, hd.rows,
+    fun e => by simp [pinnedOf, hd.enc]⟩
+
+/-- C09.5b  `derived_kind_change_never_matrix`: reuse of a derived single spec (any history of
+part / subset / round-trip steps): a factor of ANY retained term — alone or only inside an
+interaction — whose kind on the new data differs from the kind recorded by the spec it descends
+from makes the reuse an error, never a matrix. -/
+theorem derived_kind_change_never_matrix (specs : List Spec) (steps : List Step) (s' : Spec)
+    (fr : Frame) (order : List String) (hder : derive specs steps = .ok [s']) :
+    ∃ s ∈ specs, s'.encoderState = s.encoderState ∧
+      ∀ d ∈ pooledFactors [s'], d.expr ∈ order → ∀ r k,
+        dget d.expr s.encoderState = some r → newKind fr d = .ok k → k ≠ r.kind →
+        ∃ e, replayDerived specs steps fr order = .error e := by
+  obtain ⟨s, hs, hd⟩ := derive_derived steps specs [s'] hder s' (by simp)
+  refine ⟨s, hs, hd.enc, ?_⟩
+  intro d hdm hord r k hrec hk hne
+  obtain ⟨es, hes⟩ : ∃ es, prepareEvalSpec [s'] = .ok es := by simp [prepareEvalSpec]
+  have hsee := (eval_spec_sees_recorded_kinds [s'] es hes).1 s' rfl d.expr
+  rw [hd.enc] at hsee
+  obtain ⟨e, he⟩ := kind_change_never_matrix [s'] fr order es d r k hes hdm hord (hsee.trans hrec) hk hne
+  exact ⟨e, by simp [replayDerived, hder, he]⟩
+
+/-- C09.5c  `derived_kind_change_is_error`: … and the error is `FactorEncodingError` when no other
+factor of the derived spec fails in a different way. -/
+theorem derived_kind_change_is_error (specs : List Spec) (steps : List Step) (s' : Spec)
+    (fr : Frame) (order : List String) (es : EvalSpec)
+    (hder : derive specs steps = .ok [s']) (hes : prepareEvalSpec [s'] = .ok es) :
+    ∃ s ∈ specs, s'.encoderState = s.encoderState ∧
+      ∀ d ∈ pooledFactors [s'], d.expr ∈ order → ∀ r k,
+        dget d.expr s.encoderState = some r → newKind fr d = .ok k → k ≠ r.kind →
+        (∀ g ∈ pooledFactors [s'], ∀ dr e', evalFactor es fr g dr = .error e' → e' = .factorEncoding) →
+        replayDerived specs steps fr order = .error .factorEncoding := by
+  obtain ⟨s, hs, hd⟩ := derive_derived steps specs [s'] hder s' (by simp)
+  refine ⟨s, hs, hd.enc, ?_⟩
+  intro d hdm hord r k hrec hk hne hothers
+  have hsee := (eval_spec_sees_recorded_kinds [s'] es hes).1 s' rfl d.expr
+  rw [hd.enc] at hsee
+  have := kind_change_is_error [s'] fr order es d r k hes hdm hord (hsee.trans hrec) hk hne hothers
+  simp [replayDerived, hder, this]
+
+/-- C09.5d  `derived_names_recorded`: a successful reuse of derived specs returns, per derived
+spec, exactly the column names of its structure rows — which are rows of a recorded spec — and its
+pinned levels are that spec's recorded levels (so `pinned_levels_fix_columns`,
+`absent_levels_zero_columns` and `unseen_levels_no_reshape` speak about the levels recorded at fit
+time). -/
+theorem derived_names_recorded (specs : List Spec) (steps : List Step) (fr : Frame)
+    (order : List String) (rs : List Result) (h : replayDerived specs steps fr order = .ok rs) :
+    ∃ specs', derive specs steps = .ok specs' ∧ replay specs' fr order = .ok rs ∧
+      rs.length = specs'.length ∧ ∀ p ∈ specs'.zip rs,
+        p.2.names = p.1.structure_.flatMap (fun t => dictKeys t.columns) ∧
+        ∃ s ∈ specs, (∀ t ∈ p.1.structure_, t ∈ s.structure_) ∧ ∀ e, pinnedOf p.1 e = pinnedOf s e := by
+  unfold replayDerived at h
+  cases hd : derive specs steps with
+  | error e => simp [hd] at h
+  | ok specs' =>
+    simp only [hd] at h
+    obtain ⟨hl, hz⟩ := replay_names_recorded specs' fr order rs h
+    refine ⟨specs', rfl, h, hl, fun p hp => ⟨(hz p hp).1, ?_⟩⟩
+    obtain ⟨s, hs, _, _, _, _, _, _, hrows, hpin⟩ :=
+      derived_spec_keeps_record specs specs' steps hd p.1 (List.of_mem_zip hp).1
+    exact ⟨s, hs, hrows, hpin⟩
+
 /-! ## Non-vacuity: concrete instances (evaluated by the kernel) -/
 
 section examples
@@ -368,6 +447,35 @@ example : replay
     exLevels ["x"] = .ok [
       { cols := [⟨"x", [some 1, some 2, some 3]⟩, ⟨"x2", [some 1, some 2, some 3]⟩]
         warn := false, branches := [.broadcast], generated := [["x"]] }] := by
+  decide +kernel
+
+/-! ### derived specs -/
+
+/-- `exSpec.subset(["A:x"])`: the interaction alone; the encoder state of `A` (which now occurs only
+inside the interaction) is still there -/
+example : derive [exSpec] [.subset [2]] = .ok [{ exSpec with
+    terms := [[⟨"A", .lookup, "A", none⟩, ⟨"x", .lookup, "x", none⟩]]
+    structure_ := [⟨[⟨[⟨"A", false⟩, ⟨"x", false⟩], 1⟩], ["A[a]:x", "A[b]:x", "A[c]:x"]⟩] }] := by
+  decide
+
+/-- the terms are re-ordered by degree whatever the order they are nominated in -/
+example : (derive [exSpec] [.subset [2, 0]]).map (fun l => l.map (fun s => s.terms.map termDegree))
+    = .ok [[0, 2]] := by decide
+
+/-- … and terms of equal degree keep the order they are nominated in (a stable sort) -/
+example : (sortByDegree [([exA], ⟨[], ["p"]⟩), ([], ⟨[], ["q"]⟩), ([⟨"x", .lookup, "x", none⟩], ⟨[], ["r"]⟩),
+      ([exA, exA], ⟨[], ["s"]⟩), ([⟨"1", .literal 1, "", none⟩], ⟨[], ["t"]⟩)]).map (·.2.columns)
+    = [["q"], ["t"], ["p"], ["r"], ["s"]] := by decide
+
+/-- kind change under a subset that keeps `A` only inside `A:x` -/
+example : replayDerived [exSpec] [.subset [2], .roundTrip] exNumeric ["x", "A"] = .error .factorEncoding := by
+  decide +kernel
+
+/-- lost level `b`, unseen `z` under the same subset: recorded names, zero column, warning -/
+example : replayDerived [exSpec] [.part 0, .subset [2]] exLevels ["x", "A"] = .ok [
+    { cols := [⟨"A[a]:x", [some 1, some 0, some 0]⟩, ⟨"A[b]:x", [some 0, some 0, some 0]⟩,
+               ⟨"A[c]:x", [some 0, some 0, some 3]⟩]
+      warn := true, branches := [.exact], generated := [["A[a]:x", "A[b]:x", "A[c]:x"]] }] := by
   decide +kernel
 
 end examples
